@@ -109,7 +109,7 @@ def range_assignment(chk, F, rule, cfg):
     chk.ob(rule, 'ordered arm of new_call_pattern analysed', n_ord >= 1, config=cfg, fn=fn, site='ordered', unrecognised=True, what='no ordered path')
     # R18.4: the cursor is used nowhere else
     acc = L.field_accesses(F, 'assemble::MockAssembler', 'current_call_index')
-    users = sorted(set(b.defp for b, _, _, _ in acc))
+    users = L.attributed(F, acc)
     chk.ob(rule, 'the slot cursor is only used by new_call_pattern (and initialised in new)', set(users) <= {'assemble::MockAssembler::new_call_pattern', 'assemble::MockAssembler::new'}, config=cfg,
            site='field:current_call_index', what='users of the slot cursor', found=users)
     # exact_calls = Some(minimum) iff Exact
